@@ -887,10 +887,17 @@ func main() {
 	for _, s := range scs {
 		s := s
 		t := time.Now()
+		// every history of length <= 5 is executed whatever the canonical key says in the one-trace scenarios (alphabet <= 11),
+		// of length <= 4 (thorough: 5) in the two-trace ones (alphabet 16)
+		noMerge := 4
+		if len(s.ids) > 1 {
+			noMerge = ev.Pick(r, 3, 4)
+		}
 		st := seqx.Explore(r, seqx.Scenario[event]{
 			Name: s.name, Enabled: s.enabled,
 			Exec:     func(h []event) (string, string, *seqx.Failure) { return s.exec(r, h) },
 			MaxDepth: s.depth, Workers: 16,
+			NoMergeDepth: noMerge,
 		})
 		bounds[s.name] = map[string]any{"start_config": s.init.String(), "traces": s.ids, "kinds": fmt.Sprint(s.kinds), "stress_kinds": fmt.Sprint(s.stress), "reload_options": s.opts,
 			"depth_bound": s.depth, "depth_completed": st.DepthCompleted, "states": st.States, "transitions": st.Transitions, "max_spans_per_trace": s.maxSpans, "max_reloads": s.maxReloads, "wall_s": time.Since(t).Seconds()}
